@@ -46,6 +46,7 @@ IT_PROGRAMS = IT_PROGRAMS + SIGN_SMOOTH + SIGN_CELL
 SCHEDULES = [[2, 4], [2, 4, 8], [3, 5, 2]]
 FRACS = [0.5, 0.99, 0.9999]
 TOLS = [None, 0.01]
+TOLS_NOFRAC = [None, 0.01]  # tolerances paired with fractional_accuracy=None
 # histories on ONE iterative sampler / ONE grid: (f1, f2) -> f1, f2, f1 again. f1 converges at an intermediate sub-size in
 # some pixels (constants: in all), f2 runs to the last sub-size in some of them (and vice versa on the way back)
 HIST_PAIRS = [("aff:0:0:2", "gaussn"), ("gauss", "peak"), ("peak", "sincos"), ("relux", "gauss"), ("cell:0", "peak")]
@@ -55,7 +56,9 @@ RULE = (
     "cases = (kind, mask, geometry): every boolean mask (>=1 unmasked pixel) of every shape HxW with H*W <= 9 x "
     "geometry menu (4 pixel-scale pairs x 3 origins) x kind in {G: sampler tables/positions/binning over every "
     "sub-size map of the menu, F: all %d programs through the decorator / array_via_func_from / Grid2DOverSampled / "
-    "config-driven adaptive scheme, I: iterative scheme over programs x schedules x accuracies x tolerances, each on a "
+    "(also swept over a class of per-pixel maps: every map of {1,2,3}^n n<=3 and every alternating map [a,b,a,b..] a!=b in 1..4) / "
+    "config-driven adaptive scheme, I: iterative scheme over programs x schedules x accuracies (a value or None = no "
+    "fractional accuracy requested) x tolerances, each on a "
     "fresh sampler, followed by call histories f1,f2,f1 on ONE sampler object and on ONE grid through the decorator; the "
     "iterate programs include %d functions placed relative to the pixel centres of the case whose BINNED value changes "
     "sign between successive sub-size levels (paraboloid caps/bowls offset - r^2 around a target pixel, a cosine wave "
@@ -91,6 +94,12 @@ ASSUMPTIONS = [
     "walked through: '+-hi</>@1/@2' positive->negative with a magnitude ratio that reaches the accuracy, '+-lo' one "
     "that does not, '-+' negative->positive); none of these ratios is within 1e-9 of a threshold under the statement's "
     "signed ratio, so no tie band is involved",
+    "iterative rule without a requested fractional accuracy (fractional_accuracy=None, which the library's constructor "
+    "and its 'is not None' guards accept): there is no fractional requirement to meet, so a level is accepted iff the "
+    "absolute-difference tolerance, if set, is met (with neither set: the first sub-size of the schedule for every pixel)",
+    "Grid2DOverSampled through the decorator: the result is the sampler's per-pixel mean whatever the map, so the sweep "
+    "holds non-uniform maps whose total sub-pixel count is a multiple of the pixel count ([1,3], [1,2,2], [2,4,2,4], ...; "
+    "outcome ':e4mapsN:div') next to those where it is not, all compared with the reference means",
     "samplers hold no state between calls by specification: within one case one uniform sampler / one grid serves all "
     "programs and labellings in turn (a mismatch that a fresh sampler does not show is classed "
     "'...:second-call-on-same-sampler' / '...:second-call-on-same-grid'), and one iterative sampler (and one grid with a "
@@ -123,11 +132,14 @@ BOUNDS = {
     "F (38 programs): maps {1, all-ones array, 2, 3, cyclic} x entry points {bare/obj-named/stacked decorated method "
     "on Grid2D.from_mask / Grid2D(values) / Grid2D.uniform / grid.native, Grid2DOverSampled, array_via_func_from with "
     "and without obj, config-driven adaptive scheme (2 configs)} on geometry #4 for every mask and on geometry #8 for "
-    "masks <= 6 cells; cyclic map x {bare decorated method, array_via_func_from} on the other 10 geometries for "
+    "masks <= 6 cells, and there also Grid2DOverSampled (bare and stacked decorated method, 3 programs) over the 12 "
+    "alternating maps [a,b,a,b..] a!=b in 1..4 for every n and every map in {1,2,3}^n for n<=3; "
+    "cyclic map x {bare decorated method, array_via_func_from} on the other 10 geometries for "
     "masks <= 6 cells. I: masks <= 6 cells x geometries {#0, #4} x 23 programs (14 of the grammar + 7 smooth sign-changing "
     "programs centred on the middle unmasked pixel + 2 cell-wise ones over a 12-entry offset/amplitude/orientation menu "
     "rotated by 0 and 6 cells) x schedules {[2,4],[2,4,8],[3,5,2]} x "
-    "fractional accuracies {0.5,0.99,0.9999} x absolute tolerances {None,0.01}, direct call + decorated call; then "
+    "fractional accuracies {0.5,0.99,0.9999} x absolute tolerances {None,0.01} + fractional accuracy None x tolerances "
+    "{None,0.01} (24 configurations), direct call + decorated call; then "
     "5 pairs (f1,f2) x call history f1,f2,f1 on one OverSamplerIterate and on one Grid2D(OverSamplingIterate) "
     "(configs ([2,4,8],0.99), ([2,4,8],0.9999), ([3,5,2],0.99,tol 0.01) rotating over the pairs). "
     "T (tables only, array-form maps): every map in {1..8}^n for n<=4, {1,2,3,4,5}^5, {1,2,4}^6 (8+64+512+4096+3125+729 "
@@ -289,6 +301,7 @@ def classes():
     return _CLS
 
 
+E4_PROGRAMS = ["aff:2:-1:2", "gauss", "sincos"]  # programs of the Grid2DOverSampled map sweep (last one through the stacked decorator)
 ADAPT_CFG = {"A": ([0.75, 1.6], [3, 2, 1]), "B": ([1.2], [4, 2])}
 
 # ----------------------------------------------------------------------------- enumeration
@@ -794,6 +807,31 @@ def run_F(aa, v, m, g, gi, seed, t):
             continue
     if light:
         return
+    # E4 over the CLASS of per-pixel maps (pre-computed over-sampled grid + sampler through the decorator): every map of
+    # {1,2,3}^n for n <= 3 and every alternating map [a,b,a,b,...] with a != b in {1..4} for every n - among them the
+    # non-uniform maps whose total sub-pixel count is a multiple of the pixel count ([1,3], [1,2,2], [2,4,2,4], [3,4,3,4,3,4,3],
+    # ...) next to those where it is not. Each pixel must get the mean of its OWN sub-values (reference model).
+    e4maps = [("alt%d%d" % (a, b), [a if k % 2 == 0 else b for k in range(n)]) for a in range(1, 5) for b in range(1, 5) if a != b]
+    if n <= 3:
+        e4maps += [("p" + "".join(map(str, mp)), list(mp)) for mp in itertools.product((1, 2, 3), repeat=n)]
+    ndiv = 0
+    for tag, smap in e4maps:
+        pts, owner = ref.sub_grid(m, sy, sx, oy, ox, smap)
+        os_ = _sampler(aa, mask, smap, False)
+        gos = aa.Grid2DOverSampled(grid=os_.over_sampled_grid, over_sampler=os_, pixels_in_mask=n)
+        if len(set(smap)) > 1 and sum(s_ * s_ for s_ in smap) % n == 0:
+            ndiv += 1
+        for name in E4_PROGRAMS:
+            fsub = feval(name, pts[:, 0], pts[:, 1], par)
+            want = ref.bin_mean(fsub, owner, n)
+            sc = max(1.0, float(np.abs(fsub).max()))
+            prof = P(name, par)
+            r4 = prof.bare_self(gos) if name != E4_PROGRAMS[-1] else prof.stacked(gos)
+            v.ok(_close(_a(r4), want, sc), "decorator:Grid2DOverSampled",
+                 lambda: "Grid2DOverSampled map=%s %s f=%s got %s want %s" % (tag, smap, name, _a(r4).tolist(), want.tolist()))
+            v.ok(hasattr(r4, "mask") and dom.exact(_a(r4.mask), m), "decorator:result-mask",
+                 lambda: "Grid2DOverSampled map=%s f=%s result type %s" % (tag, name, type(r4).__name__))
+    v.outcome += ":e4maps%d:%s" % (len(e4maps), "div" if ndiv else "nodiv")
     # plain evaluation for structures that are not over-sampled
     for name in ("gauss", "aff:2:-1:2", "relux"):
         prof = P(name, par)
@@ -855,7 +893,9 @@ def _decide_core(prev, cur, frac, tol):
     """The statement: agreement = ratio of the smaller to the larger value, defined only when the previous value is
     positive; must meet the fractional accuracy and, if set, the absolute-difference tolerance. None = within the
     excluded 1e-9 tie band."""
-    if prev > 0:
+    if frac is None:
+        ok = True  # no fractional accuracy requested: nothing to meet but the tolerance below
+    elif prev > 0:
         lo, hi = (prev, cur) if prev <= cur else (cur, prev)
         r = lo / hi  # hi >= prev > 0
         if abs(r - frac) < 1e-9:
@@ -935,7 +975,7 @@ def _flip_classes(lv, steps, frac, stop_k, k):
         at = "@1" if idx == 0 else "@2"
         if prev > 0 > cur:
             a, b = abs(prev), abs(cur)
-            out.add("+-%s%s%s" % ("hi" if min(a, b) / max(a, b) >= frac else "lo", "<" if a < b else ">", at))
+            out.add("+-%s%s%s" % ("hi" if (frac is None or min(a, b) / max(a, b) >= frac) else "lo", "<" if a < b else ">", at))
         elif prev < 0 < cur:
             out.add("-+" + at)
         prev = cur
@@ -967,6 +1007,9 @@ def run_I(aa, v, m, g, gi, seed, t):
     nskip = 0
     shortcut = 0
     configs = [(st, fr, tl) for st in SCHEDULES for fr in FRACS for tl in TOLS]
+    # no fractional accuracy requested (fractional_accuracy=None): only the absolute-difference tolerance, if set, decides;
+    # appended so that the indexes of the configurations above stay what they were
+    configs += [(st, None, tl) for st in SCHEDULES for tl in TOLS_NOFRAC]
     hist_ci = [configs.index((st, fr, tl)) for st, fr, tl in HIST_CONFIGS]
     hist_names = set(f for pr in HIST_PAIRS for f in pr)
     fresh = {}  # (program, config index) -> (value returned by a fresh sampler [checked against the reference below], stops)
